@@ -1191,14 +1191,18 @@ class Engine:
                 sp.events.append(("entry-insert", bb, ent, r))
                 outs.append(finish(sp, ("ref", ("loc", r, ()), True)))
             return outs
-        m = re.search(r"iter::Iterator>::collect(::<.*>)?$", nm)
+        m = re.search(r"iter::Iterator>::collect(::<.*>)?$|iter::FromIterator<.*>>::from_iter(::<.*>)?$", nm)
         if m and args and "collect" in str(self.desugar):
             # collecting a lazily mapped/filtered iterator: one path for the finished collection (an opaque value, or its
             # Ok/Some form when collecting into a Result/Option), one path that produces one element (the adaptor closures run on
             # a fresh item; the element is recorded as a "collect-item" event) and goes on to the next; an element that is an Err
             # (None) ends a collection into Result (Option) with that value
             src = self.deref_val(path, args[0]) if args[0][0] == "ref" else args[0]
-            if src[0] != "app" or not re.search(r"iter::Iterator>::(map|filter_map|filter|enumerate|cloned|copied)", str(src[1])):
+            n_id = 0
+            while src[0] == "app" and re.search(r"iter::IntoIterator>::into_iter$", str(src[1])) and len(src[2]) == 1 and n_id < 3:
+                src = src[2][0]
+                n_id += 1
+            if not (src[0] == "app" and re.search(r"iter::Iterator>::(map|filter_map|filter|enumerate|cloned|copied)", str(src[1]))) and not (src[0] == "sym" and not str(src[1]).startswith("item@")):
                 return None
             dty = (t.get("dest") or {}).get("ty", "")
             into_res, into_opt = dty.startswith("std::result::Result<"), dty.startswith("std::option::Option<")
